@@ -34,7 +34,7 @@ def ensure():
     lock = open(os.path.join(OUT, '.lock'), 'w')
     fcntl.flock(lock, fcntl.LOCK_EX)
     try:
-        h = hashlib.sha256(b'recipe-2')
+        h = hashlib.sha256(b'recipe-4')
         for f in sorted(os.listdir(SRC)):
             h.update(f.encode()); h.update(open(os.path.join(SRC, f), 'rb').read())
         stamp = os.path.join(OUT, 'stamp')
@@ -43,8 +43,12 @@ def ensure():
         for fam, (src, lang, versions, extra) in FAMILIES.items():
             for v in versions:
                 libs['%s_v%d' % (fam, v)] = os.path.join(OUT, 'lib%s_v%d.so' % (fam, v))
-        for fam in FAMILIES:
-            libs['%s_nodbg' % fam] = os.path.join(OUT, 'lib%s_nodbg.so' % fam)      # version 1 of the family without debug info
+        for fam, (src, lang, versions, extra) in FAMILIES.items():
+            for v in versions:
+                libs['%s_v%d_nodbg' % (fam, v)] = os.path.join(OUT, 'lib%s_v%d_nodbg.so' % (fam, v))      # the same version built without debug info
+        for v in (0, 1):
+            libs['ties_v%d' % v] = os.path.join(OUT, 'libties_v%d.so' % v)     # same-named different types in two translation units, anonymous types
+        libs['twice_v0'] = os.path.join(OUT, 'libtwice_v0.so')                 # one source compiled twice with different -D flags
         libs['shapes_clang_v0'] = os.path.join(OUT, 'libshapes_clang_v0.so')
         libs['cxx_clang_v0'] = os.path.join(OUT, 'libcxx_clang_v0.so')
         libs['fnptr_nodebug_v0'] = os.path.join(OUT, 'libfnptr_nodebug_v0.so')
@@ -56,7 +60,15 @@ def ensure():
             for v in versions:
                 _sh([cc, '-g', '-O0', '-fPIC', '-shared', '-DV=%d' % v, '-Wl,-soname,lib%s.so.1' % fam,
                      os.path.join(SRC, src), '-o', libs['%s_v%d' % (fam, v)]] + extra)
-            _sh([cc, '-O0', '-fPIC', '-shared', '-DV=1', '-Wl,-soname,lib%s.so.1' % fam, os.path.join(SRC, src), '-o', libs['%s_nodbg' % fam]] + extra)
+            for v in versions:
+                _sh([cc, '-O0', '-fPIC', '-shared', '-DV=%d' % v, '-Wl,-soname,lib%s.so.1' % fam, os.path.join(SRC, src), '-o', libs['%s_v%d_nodbg' % (fam, v)]] + extra)
+        for v in (0, 1):
+            for tu in ('ties_a', 'ties_b'):
+                _sh(['gcc', '-g', '-O0', '-fPIC', '-DV=%d' % v, '-c', os.path.join(SRC, tu + '.c'), '-o', os.path.join(OUT, '%s_v%d.o' % (tu, v))])
+            _sh(['gcc', '-shared', '-Wl,-soname,libties.so.1', os.path.join(OUT, 'ties_a_v%d.o' % v), os.path.join(OUT, 'ties_b_v%d.o' % v), '-o', libs['ties_v%d' % v]])
+        for var in (1, 2):
+            _sh(['gcc', '-g', '-O0', '-fPIC', '-DVARIANT=%d' % var, '-c', os.path.join(SRC, 'twice.c'), '-o', os.path.join(OUT, 'twice_%d.o' % var)])
+        _sh(['gcc', '-shared', '-Wl,-soname,libtwice.so.1', os.path.join(OUT, 'twice_1.o'), os.path.join(OUT, 'twice_2.o'), '-o', libs['twice_v0']])
         _sh(['clang', '-g', '-O0', '-fPIC', '-shared', '-DV=0', '-Wl,-soname,libshapes.so.1', os.path.join(SRC, 'shapes.c'), '-o', libs['shapes_clang_v0']])
         _sh(['clang++', '-g', '-O0', '-fPIC', '-shared', '-DV=0', '-Wl,-soname,libcxx.so.1', os.path.join(SRC, 'cxx.cc'), '-o', libs['cxx_clang_v0']])
         _sh(['gcc', '-O1', '-fPIC', '-shared', '-DV=0', os.path.join(SRC, 'fnptr.c'), '-o', libs['fnptr_nodebug_v0']])
